@@ -87,8 +87,27 @@ def transformed_case(col, entry, auto_update, seed):
                              "input": {"transform": entry, "auto_update": auto_update, "seed": seed}})
 
 
+def independence_case(col, auto_update, seed):
+    """every distributed variable is drawn with its OWN child of the seed: two i.i.d. siblings differ, a child's noise is not its parent's"""
+    a = lsl.param(np.zeros(4, np.float32), lsl.Dist(tfd.Normal, loc=0.0, scale=1.0), name="a")
+    b = lsl.param(np.zeros(4, np.float32), lsl.Dist(tfd.Normal, loc=0.0, scale=1.0), name="b")
+    x = lsl.obs(np.zeros(4, np.float32), lsl.Dist(tfd.Normal, loc=a, scale=1.0), name="x")
+    model = lsl.GraphBuilder().add(x, b).build_model()
+    model.auto_update = auto_update
+    model.simulate(jax.random.PRNGKey(seed))
+    va, vb, vx = (np.asarray(model.vars[n].value) for n in ("a", "b", "x"))
+    ok = not np.allclose(va, vb) and not np.allclose(vx - va, va) and not np.allclose(vx - va, vb)
+    col.add(None if ok else {"sig": "native::simulate::shared_key", "what": f"draws share their random key: a={va.round(3).tolist()}, b={vb.round(3).tolist()}, x-a={(vx - va).round(3).tolist()}",
+                             "input": {"auto_update": auto_update, "seed": seed}})
+
+
 def bounded(tier, seed):
     col = util.Collector()
+    for au in (True, False):
+        try:
+            independence_case(col, au, seed + 1)
+        except Exception as e:
+            col.add({"sig": f"native::simulate::exception::{type(e).__name__}", "what": str(e)[:200], "input": {"scenario": "independence", "auto_update": au}})
     for entry in ("instance", "default"):
         for au in (True, False):
             try:
@@ -106,5 +125,5 @@ def bounded(tier, seed):
     return {"evaluations": col.evals, "distinct_nontrivial": len(combos),
             "rule": ("BOUNDED: models mu ~ N(1000, .001), log_sigma ~ N(-5, .001) (current 3.0), sigma = exp(log_sigma) cached, y (4x3) ~ N(loc, sigma) with loc = mu directly / through a weak "
                      "variable / through a bare Calc / positional mu with keyword scale; both auto-update settings; skip sets {}, {mu}, {y}: values near the NEW parents, shapes kept, skipped "
-                     f"untouched, nothing outdated after update, same seed same result, result independent of auto_update; a hierarchy with a re-parameterised (Var.transform, instance and default bijector) variable in the middle. seeds {seed}.."),
+                     f"untouched, nothing outdated after update, same seed same result, result independent of auto_update; two i.i.d. siblings and a child must not share their noise; a hierarchy with a re-parameterised (Var.transform, instance and default bijector) variable in the middle. seeds {seed}.."),
             "samples": [{"variant": "calc", "auto_update": False, "skip": []}], "exhaustive": False, "violations": col.violations}
